@@ -301,12 +301,21 @@ class Linker:
 
     def layout_sections(self, layout):
         """Use the given layout to place sections into memories"""
+        # Names of the sections that are already part of an image:
+        placed = set()
+
         # Create sections with address:
         for mem in layout.memories:
             image = Image(mem.name, mem.location)
             current_address = mem.location
             for memory_input in mem.inputs:
                 if isinstance(memory_input, Section):
+                    if memory_input.section_name in placed:
+                        raise CompilerError(
+                            "Section {} is placed more than once".format(
+                                memory_input.section_name
+                            )
+                        )
                     section = self.dst.get_section(
                         memory_input.section_name, create=True
                     )
@@ -322,6 +331,7 @@ class Linker:
                     )
                     current_address += section.size
                     image.add_section(section)
+                    placed.add(section.name)
                 elif isinstance(memory_input, SectionData):
                     section_name = f"_${memory_input.section_name}_"
                     # Each section must be unique:
@@ -339,6 +349,7 @@ class Linker:
 
                     current_address += section.size
                     image.add_section(section)
+                    placed.add(section.name)
                 elif isinstance(memory_input, SymbolDefinition):
                     # Create a new section, and place it at current spot:
                     symbol_name = memory_input.symbol_name
@@ -354,6 +365,7 @@ class Linker:
                         symbol_name, section_name, 0, "object", 0
                     )
                     image.add_section(section)
+                    placed.add(section.name)
                 elif isinstance(memory_input, Align):
                     while (current_address % memory_input.alignment) != 0:
                         current_address += 1
